@@ -32,9 +32,9 @@ TRACE = """SPECIFICATION Spec
 INVARIANT NoStuck
 PROPERTY Verdicts
 """
-
+MIXED = [{"a": x, "b": y} for x in ([1], {"k": 1}, "x", 1, None, True) for y in ({"x": 1}, [["x"], [1]], "xyz", 1, None)]
 VALS = [1, "s", None, True, {"a": {"b": 1}}, [1, [2]], 1.5, "", [], {}, 0, False]
-DOCS = [{"a": list(VALS), "b": "str", "c": None, "1": 1, "": 0, "é": [1]}, list(VALS) + [{"a": list(VALS)}], 5, None, True, 1.5, "plain text", {"a": "s"}, []]
+DOCS = [{"a": list(VALS), "b": "str", "c": None, "1": 1, "": 0, "é": [1]}, list(VALS) + [{"a": list(VALS)}], 5, None, True, 1.5, "plain text", {"a": "s"}, [], MIXED]
 PDOCS = [{"a": [1, 2], "b": {"c": 1}}, [1], 5, "s", None, {"a": {"0": 1}}, {}]
 BASES = ["", "/a/0", "/a", "/0/1/2"]
 
@@ -76,6 +76,8 @@ def decode(code: str) -> Any:
     return {"n:1": 1, "l:": [], "null": None}[code]
 
 
+
+
 def session(item: Tuple[str, Any]) -> Dict[str, Any]:
     """Run the calls of one session against the real API and record the events."""
     import copy
@@ -84,6 +86,8 @@ def session(item: Tuple[str, Any]) -> Dict[str, Any]:
     from jsonpath import JSONPatch, JSONPointer, RelativeJSONPointer
 
     lang, s = item
+    if lang != "patch":
+        s = [{"EACUTE": "\u00e9", "SUPER2": "\u00b2"}.get(x, x) for x in s]
     ev: List[Dict[str, Any]] = []
 
     def log(name: str, fn: Any) -> Any:
